@@ -16,7 +16,10 @@ import (
 	"encoding/base64"
 	"encoding/pem"
 	"fmt"
+	"io"
+	"log"
 	"math/big"
+	"os"
 	"strings"
 	"sync/atomic"
 	"time"
@@ -90,10 +93,17 @@ func (e *envT) issue(tpl, parent *x509.Certificate, pub crypto.PublicKey, signer
 	return crt
 }
 
+func dbg(what string, err error) {
+	if os.Getenv("C06_DEBUG") != "" {
+		fmt.Fprintln(os.Stderr, what, err)
+	}
+}
+
 func getEnv() *envT {
 	if env != nil {
 		return env
 	}
+	log.SetOutput(io.Discard) // the authority logs provisioners that fail to initialise
 	e := &envT{}
 	e.rootKey, e.interKey, e.leafKey = mustKey(), mustKey(), mustKey()
 	t0 := time.Now().Add(-24 * time.Hour)
@@ -162,6 +172,9 @@ func (k *RenewCase) token(aud, sub string, sshOpts *provisioner.SignSSHOptions, 
 	e := getEnv()
 	now := time.Now()
 	n := atomic.AddInt64(&jti, 1)
+	if k.Prov == "x5c" {
+		aud += "#x5c/x5c" // the fragment selects the provisioner (X5C.Init: Audiences.WithFragment)
+	}
 	cl := tokenClaims{Claims: jose.Claims{ID: fmt.Sprintf("jti-%d-%d", now.UnixNano(), n), Subject: sub, Issuer: k.Prov,
 		NotBefore: jose.NewNumericDate(now.Add(-30 * time.Second)), Expiry: jose.NewNumericDate(now.Add(5 * time.Minute)),
 		Audience: []string{aud}}}
@@ -202,6 +215,7 @@ func (k *RenewCase) runAll() (out [][2]string) {
 			out = append(out, [2]string{"skip reason=harness-panic", fmt.Sprint("skip ", r)[:40]})
 		}
 	}()
+	var line, impl string
 	e := getEnv()
 	a, err := k.authority()
 	if err != nil {
@@ -209,7 +223,10 @@ func (k *RenewCase) runAll() (out [][2]string) {
 	}
 	ac, _ := provisioner.NewClaimer(k.A.claims(), config.GlobalProvisionerClaims)
 	g := fullOf(ac.Claims())
-	cl := claimer(g, k.P)
+	cl, err := provisioner.NewClaimer(k.P.claims(), g.claims())
+	if err != nil {
+		return nil // the provisioner does not initialise with these claims
+	}
 	base := time.Now().Round(0).UTC()
 	restore := provisioner.VerifSetNow(base)
 	defer restore()
@@ -254,12 +271,15 @@ func (k *RenewCase) runAll() (out [][2]string) {
 		line = fmt.Sprintf("x509 e2e=1 cas=1 mode=%s lnb=%s lna=%s g=%s p=%s bd=%d now=%s vnow=%s snb=%s sna=%s cnb=0:0 cna=0:0",
 			mode, timeS(lnb), timeS(lna), g, k.P, k.Backdate, timeS(base), timeS(vnow), snbS, snaS)
 		out = append(out, [2]string{line, impl})
-		if k.Renew && strings.HasPrefix(impl, "ok") {
+		// renewal is gated on the old certificate being currently valid (C09): only then compare
+		if k.Renew && strings.HasPrefix(impl, "ok") && certs[0].NotBefore.Before(time.Now().Add(-time.Second)) &&
+			certs[0].NotAfter.After(time.Now().Add(2*time.Second)) {
 			t0 := time.Now()
 			nc, err := a.Renew(certs[0])
 			t1 := time.Now()
 			rl := fmt.Sprintf("xrenew casnow=%s bd=%d onb=%s ona=%s", timeS(t0), k.Backdate, timeS(certs[0].NotBefore), timeS(certs[0].NotAfter))
 			if err != nil {
+				dbg("Renew", err)
 				out = append(out, [2]string{rl, "rej:500:cas"})
 			} else {
 				lo := t0.Add(-time.Duration(k.Backdate)).Truncate(time.Second)
@@ -297,12 +317,14 @@ func (k *RenewCase) runAll() (out [][2]string) {
 			sctx := provisioner.NewContextWithMethod(ctx, provisioner.SSHSignMethod)
 			so, err := a.Authorize(sctx, tok)
 			if err != nil {
+				dbg("Authorize ssh "+k.Prov+fmt.Sprint(k.CType), err)
 				return "rej"
 			}
 			// the request repeats the token's options where it sets any (they must match)
 			ropts := provisioner.SignSSHOptions{CertType: ct, KeyID: "leaf.verif.test", Principals: []string{"leaf.verif.test"}, ValidAfter: uva, ValidBefore: uvb}
 			cert, err = a.SignSSH(sctx, e.sshPub2, ropts, so...)
 			if err != nil {
+				dbg("SignSSH", err)
 				return "rej"
 			}
 			return fmt.Sprintf("ok va=%d vb=%d", cert.ValidAfter, cert.ValidBefore)
